@@ -11,6 +11,10 @@ type SchemaOpts struct {
 	Root     interface{}
 	BasePath string
 	_        struct{}
+
+	// visitedRefs holds the $ref's being resolved by the enclosing analyses:
+	// it stops the analysis of schemas that contain themselves (e.g. an array of itself).
+	visitedRefs map[string]struct{}
 }
 
 // Schema analysis, will classify the schema according to known
@@ -24,6 +28,8 @@ func Schema(opts SchemaOpts) (*AnalyzedSchema, error) {
 		schema:   opts.Schema,
 		root:     opts.Root,
 		basePath: opts.BasePath,
+
+		visitedRefs: opts.visitedRefs,
 	}
 
 	a.initializeFlags()
@@ -54,6 +60,8 @@ type AnalyzedSchema struct {
 	schema   *spec.Schema
 	root     interface{}
 	basePath string
+
+	visitedRefs map[string]struct{}
 
 	hasProps           bool
 	hasAllOf           bool
@@ -102,6 +110,19 @@ func (a *AnalyzedSchema) inherits(other *AnalyzedSchema) {
 
 func (a *AnalyzedSchema) inferFromRef() error {
 	if a.hasRef {
+		key := a.schema.Ref.String()
+		if _, beenThere := a.visitedRefs[key]; beenThere {
+			// this $ref is already being resolved: the schema contains itself.
+			// Stop here: the $ref is not qualified any further.
+			return nil
+		}
+
+		visitedRefs := make(map[string]struct{}, len(a.visitedRefs)+1)
+		for k := range a.visitedRefs {
+			visitedRefs[k] = struct{}{}
+		}
+		visitedRefs[key] = struct{}{}
+
 		sch := new(spec.Schema)
 		sch.Ref = a.schema.Ref
 		err := spec.ExpandSchema(sch, a.root, nil)
@@ -112,6 +133,8 @@ func (a *AnalyzedSchema) inferFromRef() error {
 			Schema:   sch,
 			Root:     a.root,
 			BasePath: a.basePath,
+
+			visitedRefs: visitedRefs,
 		})
 		if err != nil {
 			// NOTE(fredbi): currently the only cause for errors is
@@ -160,6 +183,8 @@ func (a *AnalyzedSchema) inferMap() error {
 			Schema:   a.schema.AdditionalProperties.Schema,
 			Root:     a.root,
 			BasePath: a.basePath,
+
+			visitedRefs: a.visitedRefs,
 		})
 		if err != nil {
 			return err
@@ -187,6 +212,8 @@ func (a *AnalyzedSchema) inferArray() error {
 				Schema:   a.schema.Items.Schema,
 				Root:     a.root,
 				BasePath: a.basePath,
+
+				visitedRefs: a.visitedRefs,
 			})
 			if err != nil {
 				return err
